@@ -630,25 +630,22 @@ func (s *KevoServiceServer) Compact(ctx context.Context, req *pb.CompactRequest)
 		return &pb.CompactResponse{Success: false}, fmt.Errorf("compaction is already in progress")
 	}
 
-	// For now, Compact just performs a memtable flush as we don't have a public
-	// Compact method on the engine yet
+	// Wait for the open transactions like any other writer: an empty read-write
+	// transaction takes the transaction lock and gives it back
 	tx, err := s.engine.BeginTransaction(false)
 	if err != nil {
 		return &pb.CompactResponse{Success: false}, err
 	}
-
-	// Do a dummy write to force a flush
-	if req.Force {
-		err = tx.Put([]byte("__compact_marker__"), []byte("force"))
-		if err != nil {
-			tx.Rollback()
-			return &pb.CompactResponse{Success: false}, err
-		}
+	if err = tx.Commit(); err != nil {
+		return &pb.CompactResponse{Success: false}, err
 	}
 
-	err = tx.Commit()
-	if err != nil {
-		return &pb.CompactResponse{Success: false}, err
+	// Maintenance must not change the data: force flushes the memtables through the
+	// engine instead of committing a dummy key ("__compact_marker__") into the database
+	if req.Force {
+		if err = s.engine.FlushImMemTables(); err != nil {
+			return &pb.CompactResponse{Success: false}, err
+		}
 	}
 
 	return &pb.CompactResponse{Success: true}, nil
